@@ -171,6 +171,16 @@ CLAIMED["C19"] = dict(
    note="residual/nearness are judged (1e-3 / 1e-2); solves still iterating after 1e5 iterations are abandoned and reported as drift, not judged",
    technique="TLA+ design model (TLC exhaustive) + real solver driven on generated systems with hook-recorded Jacobians + TLA+ trace validation",
    design_ref="DESIGN.md section 3 C19")
+CLAIMED["C17"] = dict(
+   text="Script.tla gives the denotation of scripts: operators and math functions build the namesake node with operands in source order, "
+        "numbers and arrays next to a tree are coerced, comparisons on trees are errors, and shape constructor calls are matched against "
+        "the shape table by the stated algorithm (map with defaults, (tree, map), chained, positional in any order, promotion, ordered, "
+        "two-tree, reduction); the table is reflected from the real crate at check time. TLC checks the matching laws and enumerates "
+        "scripts; each runs in the real engine; Trace_C17 recomputes the denotation from the recorded syntax tree and requires the engine's "
+        "tree to equal, node for node, the tree built by the corresponding Rust calls (and the model's own term when no shape is involved).",
+   note="dyadic numbers and coordinate axes only; rejections other than tree comparisons are reported as drift; positional `plane(..)` shape forms excluded (name shared with the Plane value constructor)",
+   technique="TLA+ denotational model (TLC: laws + enumeration) + TLC-generated scripts replayed into the real engine + TLA+ trace validation (structural equality)",
+   design_ref="DESIGN.md section 3 C17")
 NOT_YET = {}
 props = [json.loads(l) for l in open(os.path.join(ROOT, "properties.jsonl"))]
 m = {
